@@ -92,6 +92,8 @@ def run(tier, seed, deep, hints):
             findings.append({"what": f"CountingCuckooFilter cap={case['cap']} b={case['b']} swaps={case['swaps']} auto={case['auto']} rate={case['rate']}: {bad}", "case": case, "signature": sig})
 
     for _ in range(n_script):
+        if core.search_expired():
+            break
         case = gen_case(rng, counting=True, tiny=True, reload=False)
         # counts above 1 are what the eviction path has to carry
         case["ops"] = [op for op in case["ops"] for _ in (range(2) if op[0] == "add" and rng.random() < 0.5 else range(1))]
@@ -104,6 +106,8 @@ def run(tier, seed, deep, hints):
             if len(findings) >= 4:
                 break
     for _ in range(n_seeded):
+        if core.search_expired():
+            break
         if len(findings) >= 4:
             break
         case = gen_case(rng, counting=True, tiny=rng.random() < 0.5, reload=False)
